@@ -1068,6 +1068,14 @@ class Executor:
                                      'frozenset', 'set', 'list', 'tuple', 'iter', 'next', 'any', 'all', 'bool',
                                      'int', 'bytes', 'memoryview', 'islice', 'chain', 'bisect_left', 'bisect_right'):
                         continue
+                    target = getattr(frame, 'module_ns', {}).get(n.func.id) if hasattr(frame, 'module_ns') else None
+                    if target is None:
+                        try:
+                            target = getattr(module_of(frame.contract.file), n.func.id, None)
+                        except Exception:   # noqa
+                            target = None
+                    if isinstance(target, type) and issubclass(target, BaseException):
+                        continue        # an exception constructor keeps references to its arguments, it mutates none
                     for a in list(n.args) + [k.value for k in n.keywords]:
                         if isinstance(a, (ast.Name, ast.Attribute)):
                             touch(a, call=True)
@@ -1677,6 +1685,11 @@ class Executor:
             a = a.val()
         if isinstance(b, VOpt) and isinstance(b.sort.inner, IntS):
             b = b.val()
+        hook = getattr(self.frames[-1].contract, 'binop_model', None) if self.frames else None
+        if hook is not None:
+            r = hook(self, op, a, b)
+            if r is not None:
+                return r
         if isinstance(a, VInt) and isinstance(b, VInt):
             if isinstance(op, ast.Add):
                 return a + b
@@ -1741,6 +1754,15 @@ class Executor:
                 return r if isinstance(op, ast.In) else ~r
             if isinstance(b, (VSet, VMap)):
                 r = b.has(a)
+            elif isinstance(b, VList) and isinstance(a, VList):
+                # bytes in bytes: substring test for a needle of concrete length
+                m = z3.simplify(a.n)
+                if not z3.is_int_value(m):
+                    raise Unsupported('substring test with a needle of symbolic length')
+                m = m.as_long()
+                i = z3.Int(fresh_name('i'))
+                r = VBool(z3.Exists([i], z3.And(i >= 0, i + m <= b.n,
+                                                *[z3.Select(b.arr, i + j) == z3.Select(a.arr, j) for j in range(m)])))
             elif isinstance(b, VList):
                 i = z3.Int(fresh_name('i'))
                 r = VBool(z3.Exists([i], z3.And(i >= 0, i < b.n, b.arr[i] == _t(a))))
